@@ -89,6 +89,11 @@ type splitRun struct {
 	nacked     bool
 	nackErr    error
 	nackTaskID string
+	// processorNack is set when a member was nacked by a processor. If the DLQ
+	// does not absorb the nack of such a run the error is fatal, no matter
+	// which call (the nack itself or a later vote of a sibling member that
+	// completes the run) forwards the run to the parent, see Worker.doTaskAttempt.
+	processorNack bool
 
 	// released guards against ever forwarding the same run to the parent
 	// twice. Structurally this should be unreachable (see run_ledger.go's
@@ -281,6 +286,9 @@ func (r *runAckNacker) vote(ctx context.Context, batch *Batch, isAck bool, taskI
 			run.released = true
 			if run.nacked {
 				if err := r.parent.Nack(ctx, run.nackBatch(), run.nackTaskID); err != nil {
+					if run.processorNack {
+						return cerrors.FatalError(cerrors.Errorf("error executing processor: %w", err))
+					}
 					return err
 				}
 			} else if err := r.parent.Ack(ctx, run.ackBatch()); err != nil {
@@ -291,6 +299,16 @@ func (r *runAckNacker) vote(ctx context.Context, batch *Batch, isAck bool, taskI
 		i = j
 	}
 	return nil
+}
+
+// markProcessorNack records on every split run with a member in the batch that
+// a processor nacked it, see splitRun.processorNack.
+func (b *Batch) markProcessorNack() {
+	for _, run := range b.runs {
+		if run != nil {
+			run.processorNack = true
+		}
+	}
 }
 
 func (r *runAckNacker) forward(ctx context.Context, batch *Batch, isAck bool, taskID string) error {
